@@ -874,6 +874,7 @@ def mon_groups(h, obs):
                         dst = c.split("-")[1].split(":")[1]
                         if c not in b.timeout.get(dst, []):
                             hits.append(Hit("C05/timeout-destination-not-told", f"group of {key[0]} timed out in block {b.h}: destination {dst} is not told to roll back the succeeded child {c}", detail=b.raw))
+                    _check_routed(hits, b, g, "timeout")
         elif st[0] == "q" and st[1] == "status" and st[2] in of_child and st[2] not in ambiguous and st[3].isdigit():
             g = groups[of_child[st[2]]]
             val = int(st[3])
@@ -907,6 +908,28 @@ def mon_groups(h, obs):
     return hits
 
 
+def _route_verdict(b):
+    """the harness's verdict on what the real router handed to the piers for this block (impl-only annotation `route=` of the line)"""
+    if " route=" not in b.raw:
+        return ""
+    return b.raw.rsplit(" route=", 1)[1].split()[0]
+
+
+def _check_routed(hits, b, g, why):
+    """the block in which a group fails or times out: what its interchain meta says reaches the piers through the real router
+    (subscription feed and fetch-again path) — the notification of the source and destination chains is that delivery"""
+    v = _route_verdict(b)
+    if not v.startswith("bad:"):
+        return
+    parts = v.split(":")
+    what = parts[3] if len(parts) > 3 else "?"
+    kind = what.split("=")[0].split("[")[0]
+    if kind in ("timeouts", "multi", "nothing-sent", "wrappers") or (len(parts) > 2 and parts[2] == "nothing-sent"):
+        hits.append(Hit(f"C05/group-{why}-not-delivered-to-piers/{parts[1] if len(parts) > 1 else '?'}/{kind}",
+                        f"group of {g.frm} {'timed out' if why == 'timeout' else 'failed'} in block {b.h}: the router hands pier "
+                        f"{parts[2] if len(parts) > 2 else '?'} something else than the block's interchain meta says ({v})", detail=b.raw))
+
+
 def _check_notified(hits, b, g, culprit, why):
     """in the block where the group fails, the source is told to roll back every other begun child and every destination
     holding an already-succeeded child is told to roll that child back"""
@@ -926,6 +949,7 @@ def _check_notified(hits, b, g, culprit, why):
         for c in ids:
             if c in g.decl and chain != src and chain != c.split("-")[1].split(":")[1]:
                 hits.append(Hit(f"C05/wrong-chain-told/{why}", f"chain {chain} is told to roll back {c}, which is neither its source nor its destination", detail=b.raw))
+    _check_routed(hits, b, g, why)
 
 
 def tags_c05(h, obs):
